@@ -225,6 +225,35 @@ Definition nearby_count (p : profile) (address : Z) (regs : list Z) : outcome Z 
 Definition nearby_site (p : profile) (address : Z) (regs : list Z) : outcome (Z * option Z) :=
   do n <- nearby_count p address regs; do i <- nearby_index p n; Ret (n, i).
 
+(* ------------------------------------------------------------------ MinidumpInfo::new and process_minidump_with_options *)
+(* processor.rs 495-632: the thread list and the system info are required (`.or(Err(ProcessError::..))?`, in this order); the failure
+   of every other stream read is degraded to a default / None (Gen/C03Sites.gen_stream_handling lists them all).  Some e = Err(e). *)
+Inductive process_error := MissingThreadList | MissingSystemInfo.
+Definition info_new (thread_list_ok system_info_ok : bool) : option process_error :=
+  if negb thread_list_ok then Some MissingThreadList
+  else if negb system_info_ok then Some MissingSystemInfo
+  else None.
+
+(* process_minidump_with_options (442-462): MinidumpInfo::new(..)?, the exception analyses, into_process_state *)
+Inductive process_result := ProcessErr (e : process_error) | ProcessOk (threads : list thread_out) (requesting : option nat).
+Section Pipeline.
+Variable p : profile.
+Variable cpu : cpu_kind.
+Variable a : C05.Model.arch.
+Variable os : Z.
+Variable module_at : Z -> option Z.
+Variable max_module_addr : Z.
+Variable cfi_walk : C05.Model.memory -> C05.Model.frame -> option C05.Model.frame -> list Z -> option (C05.Model.regs * list Z).
+Variable instr_valid : Z -> bool.
+Definition process_minidump (thread_list_ok system_info_ok : bool) (pi : proc_in) : outcome process_result :=
+  match info_new thread_list_ok system_info_ok with
+  | Some e => Ret (ProcessErr e)
+  | None =>
+      do r <- process_threads p cpu a os module_at max_module_addr cfi_walk instr_valid pi;
+      Ret (ProcessOk (fst r) (snd r))
+  end.
+End Pipeline.
+
 (* all frames of a ProcessState, and the largest stack memory any thread can be given *)
 Definition total_frames (outs : list thread_out) : nat := fold_right (fun o n => (length (o_frames o) + n)%nat) 0%nat outs.
 Definition own_stacks (pi : proc_in) : list region :=
